@@ -836,6 +836,29 @@ def analyse(R, levels=OPTS):
     return diffs
 
 
+_UNDEF = re.compile(r"undefined reference to `([^']+)'")
+_GENERIC_INST = re.compile(r"-[^\s']*_mod_[0-9a-f]{64}")
+
+
+def separate_unbuildable(builds):
+    """A principled reason why the modules-separate mode cannot build a program: every undefined symbol of every failed link
+    belongs to an instantiation of a generic Kombination (mangled `<type arguments>-<name>_mod_<hash of the DECLARING module>`,
+    helper.go:201-219). ir_struct_type.go:73-84,100-102 defines the functions of an instantiation only in the declaring module,
+    and only for the instantiations the current compiler process has parsed; compiled on its own, the declaring module has
+    never seen the instantiation its importer asks for, so no object defines it."""
+    syms = set()
+    for c, r in builds.items():
+        if r[1] != "link":
+            return None
+        found = _UNDEF.findall(r[2])
+        if not found:
+            return None
+        syms.update(found)
+    if syms and all(_GENERIC_INST.search(x) for x in syms):
+        return "generic Kombination instantiated by an importing module: %s" % sorted(syms)[0][:120]
+    return None
+
+
 def facts_of(s):
     if s.prog is None:
         return None
@@ -863,10 +886,18 @@ def judge(rn, s, R):
         c0 = sorted(builds)[0]
         if not good:
             return [("source does not build in any configuration (%s)" % s.kind, builds[c0][2][-300:], dict(files=files, kind=s.kind, meta=s.meta, stage=builds[c0][1], log=builds[c0][2]))]
-        key = "build: %s builds in some configurations only (%s fail at stage %s)" % (s.kind, ",".join(sorted({link_name(c[1], c[2]) for c in builds})) + " at " + ",".join(sorted({"O%d" % c[0] for c in builds})), builds[c0][1])
-        out.append((key, "%s fails to build (%s) while %s builds" % (cfg_name(c0), builds[c0][2][-300:], cfg_name(good[0])),
-                    dict(files=files, kind=s.kind, meta=s.meta, config_a=cfg_name(c0), config_b=cfg_name(good[0]), log=builds[c0][2], how=recipe_text(rn.b))))
-        return out
+        why = separate_unbuildable(builds)
+        if why and all(not c[1] for c in builds) and all(c[1] for c in good):
+            # principled: the modules-separate mode cannot build this program at all; compare the remaining configurations
+            s.meta["modules_separate_unbuildable"] = why
+            R = dict(R)
+            for c in builds:
+                R[c] = R[(c[0], True, c[2])]
+        else:
+            key = "build: %s builds in some configurations only (%s fail at stage %s)" % (s.kind, ",".join(sorted({link_name(c[1], c[2]) for c in builds})) + " at " + ",".join(sorted({"O%d" % c[0] for c in builds})), builds[c0][1])
+            out.append((key, "%s fails to build (%s) while %s builds" % (cfg_name(c0), builds[c0][2][-300:], cfg_name(good[0])),
+                        dict(files=files, kind=s.kind, meta=s.meta, config_a=cfg_name(c0), config_b=cfg_name(good[0]), log=builds[c0][2], how=recipe_text(rn.b))))
+            return out
     if all(same(R[CONFIGS[0]], R[c]) for c in R):
         return out
     # (1) differences that do not involve -O 2
@@ -1025,8 +1056,8 @@ def main():
             if per_shape.get(m["shape"], 0) < 2 and len(shp2) < 9:
                 per_shape[m["shape"]] = per_shape.get(m["shape"], 0) + 1
                 shp2.append((m, p))
-        shp, mat = shp2, mat[:8]
-    nrand = 8 if quick else 330
+        shp, mat = shp2[:8], mat[:6]
+    nrand = 6 if quick else 150
     g_all = c08gen.RandGen(rng)
     rnd = []
     while len(rnd) < nrand:
@@ -1036,18 +1067,18 @@ def main():
     for m, p in mat + shp + rnd:
         sources.append(src_c08(m, p))
     # (c1) the same kind of program cut into two files
-    nsplit = 6 if quick else 120
+    nsplit = 5 if quick else 70
     pool = shp + rnd + mat
     for m, p in [pool[i] for i in sorted(rng.sample(range(len(pool)), min(nsplit, len(pool))))]:
         sources.append(src_c08_split(m, p))
     # (b) Duden programs
-    sources += src_duden(rng, 10 if quick else 160)
+    sources += src_duden(rng, 8 if quick else 80)
     if not quick:
         sources += [Source("duden", {"prog.ddp": t}, "prog.ddp", meta=dict(template=i)) for i, t in DudenGen(rng).every_template()]
     # (c2) multi-module programs
-    sources += [multi_module(rng, i) for i in range(8 if quick else 100)]
+    sources += [multi_module(rng, i) for i in range(7 if quick else 60)]
     # (e) arithmetic whose LLVM instruction is undefined for the operands (and controls inside the domain)
-    sources += src_arith(rng, 7 if quick else 64, 3 if quick else 56)
+    sources += src_arith(rng, 6 if quick else 64, 3 if quick else 56)
     # (d) upstream goldens
     gold, gskipped = goldens(os.path.join(sc, "testdata"))
     if quick:
@@ -1055,7 +1086,7 @@ def main():
         multi = [g for g in gold if import_closure(g.path, b.dir) and any(not m.startswith(os.path.join(b.dir, "Duden")) for m in import_closure(g.path, b.dir))]
         rest = [g for g in gold if g not in multi]
         rng.shuffle(rest)
-        gold = multi[:4] + rest[:7]
+        gold = multi[:4] + rest[:6]
     else:
         gold_all = len(gold)
     sources += gold
@@ -1076,6 +1107,8 @@ def main():
     by_kind, classes, keys, plain_keys = {}, {}, {}, {}
     uncompilable = []
     nondet_everywhere = {}
+    sep_unbuildable = []
+    n_shrunk = 0
     n_diff_sources = 0
     for i, s in enumerate(sources):
         R = per[i]
@@ -1084,8 +1117,9 @@ def main():
             classes[R[c][0]] = classes.get(R[c][0], 0) + 1
         if all(r[0] == "build" for r in R.values()):
             c0 = sorted(R)[0]
-            if s.kind == "golden" and R[c0][1] == "kddp":
-                uncompilable.append((s.meta.get("dir"), R[c0][2].strip().splitlines()[-1][:160] if R[c0][2].strip() else ""))
+            if s.kind == "golden":
+                # e.g. needs pcre2/libarchive, or an external .c file only kddp's own link step would compile
+                uncompilable.append((s.meta.get("dir"), R[c0][1], R[c0][2].strip().splitlines()[-1][:160] if R[c0][2].strip() else ""))
                 continue
         base = R[CONFIGS[0]]
         if base[0] != "build" and base[1]:
@@ -1096,20 +1130,23 @@ def main():
         plain_keys[i] = [k for k, _, _ in vs]
         if vs:
             n_diff_sources += 1
+        if s.meta.get("modules_separate_unbuildable"):
+            sep_unbuildable.append((s.kind, s.meta.get("dir") or s.meta.get("n"), s.meta["modules_separate_unbuildable"]))
         for key, what, replay in vs:
             is_new = ck.violation(key, what, replay)
             keys[key] = keys.get(key, 0) + 1
-            if is_new and keys[key] == 1 and i >= ncorpus and not key.startswith("source does not build"):
-                small = shrink_prog(rn, s, key) if s.prog is not None else shrink_text(rn, s, key)
+            if is_new and keys[key] == 1 and i >= ncorpus and not key.startswith("source does not build") and not key.startswith("build:") and n_shrunk < 2:
+                n_shrunk += 1      # shrinking costs 12 builds per candidate: only the first two unknown keys of a run
+                small = shrink_prog(rn, s, key, budget=10) if s.prog is not None else shrink_text(rn, s, key, budget=10)
                 if small is not s:
                     replay["shrunk_files"] = small.files
-                if small.files:
+                if small.files and os.path.realpath(vlib.REPO) == "/repo":     # mutation runs (VERIF_REPO=copy) do not feed the corpus
                     os.makedirs(cdir, exist_ok=True)
                     json.dump(dict(key=key, kind=small.kind, files=small.files, main=small.main), open(os.path.join(cdir, "v_%s.json" % hashlib.sha1(key.encode()).hexdigest()[:10]), "w"), ensure_ascii=False, indent=1)
     # ---------------- sanitizer flavour: the error class "sanitizer" at each -O level (default link mode)
     asan_pool = [i for i, s in enumerate(sources) if s.kind in ("c08gen", "c08gen-split", "modules", "duden") and all(r[0] != "build" for r in per[i].values())]
     rng.shuffle(asan_pool)
-    asan_pool = asan_pool[: (6 if quick else 150)]
+    asan_pool = asan_pool[: (6 if quick else 100)]
     ajobs = [(i, o) for i in asan_pool for o in OPTS]
 
     def ajob(io):
@@ -1162,7 +1199,7 @@ def main():
         sources=nsrc, by_kind=by_kind, configurations=[cfg_name(c) for c in CONFIGS], executable_runs=rn.runs, outcome_classes=classes, sources_with_a_difference=n_diff_sources,
         keys=keys, dropped=dropped, goldens_total=gold_all, goldens_used=sum(1 for s in sources if s.kind == "golden") - len(uncompilable), goldens_skipped=gskipped,
         goldens_not_compilable_in_this_sandbox=uncompilable, sanitizer_sources=len(asan_pool), sanitizer_level_differences=n_asan_diff, build_counters=rn.bu.cpu, recipes=recipe_text(b),
-        nondeterministic_in_every_configuration=nondet_everywhere, raw_O0_separate_objects_link=raw_probe,
+        nondeterministic_in_every_configuration=nondet_everywhere, modules_separate_not_buildable=sep_unbuildable, raw_O0_separate_objects_link=raw_probe,
         rule="evaluations = executable runs (source x configuration, each executable twice; plus sanitizer-flavour runs and attribution/shrink re-runs); distinct_nontrivial = distinct source texts that built and whose baseline run (O0, everything linked) printed something; every source prints the state it mutates",
         distribution="(a) c08gen: construct x mutation x type matrix, aliasing shapes, random programs (2-4 globals, 1-3 functions, value/Referenz parameters, aliasing bias 0.5-0.6), without the programs whose reference run flags S or D; "
                      "(b) straight-line programs of 12-28 statements drawn uniformly from %d call templates over Duden/Listen, Texte, Mathe, Zahlen with random literals (thorough: plus one program per template); "
@@ -1191,7 +1228,11 @@ def main():
         "at -O 0 without module linking export their anonymous string constants as global symbols __unnamed_N (compiler.go:796: external linkage, no name; no pass internalises them), so two such objects do not link "
         "as written (field raw_O0_separate_objects_link); the check makes them local with objcopy, which is what the IR linker does when it merges modules. (6) Each executable is run twice; output that changes "
         "from run to run (address-derived garbage: LLVM undef/poison, freed storage) is the class 'nondeterministic', equal only to itself; sources that are nondeterministic in all 12 configurations are listed in "
-        "nondeterministic_in_every_configuration (no C11 difference, but undefined behaviour of the language construct at every level)."))
+        "nondeterministic_in_every_configuration (no C11 difference, but undefined behaviour of the language construct at every level). "
+        "(7) A program that instantiates an imported generic Kombination with type arguments the declaring module never uses itself cannot be built with separate modules at all: the instantiation's copy/free/"
+        "compare functions and vtable are emitted only by the declaring module and only for the instantiations the running compiler process has parsed (ir_struct_type.go:73-84, 100-102), so the separately "
+        "compiled declaring module does not define them (undefined reference at link time); such sources are listed in modules_separate_not_buildable and compared over the 6 modules-linked configurations only. "
+        "(8) Goldens whose link needs an external .c file or library that only kddp's own link step provides fail in every configuration and are listed in goldens_not_compilable_in_this_sandbox."))
 
 
 if __name__ == "__main__":
